@@ -104,10 +104,54 @@ CHECKS = {
           "the metrics HTTP server and CLI output are not scanned. File modes are as observed under the umask the harness sets.",
   "technique": "TLA+ inventory model + TLC exhaustive model checking + TLC trace validation of recorded real traffic/files/logs with a byte-scan oracle",
  },
+ "C11": {
+  "text": "SyncServe.tla (stream server + callback layer, one action per critical section) checked exhaustively by TLC for 1-2 streams, start rounds {0, middle, head, head+1}, 2-3 appends interleaved "
+          "at every point, bolt-snapshot and memdb-live cursors, same-address replacement, two writers. All 1073 maximal behaviours of the bounded model plus sampled larger ones are executed gated on "
+          "the real SyncChain/callbackStore/appendStore over boltdb (trimmed; untrimmed and memdb in thorough); the recorded traces, including un-gated concurrent soak with reconnecting clients, are "
+          "judged by Trace_SyncServe.tla (NoRepeat, InOrder, NoGap, FromStart, DigestOk, LiveComplete, Refusal).",
+  "design_ref": "DESIGN.md 4 C11",
+  "note": "gRPC replaced by an in-process SyncStream (a Send that does not return stands for flow control). PublicRandStream's proxy only converts the packet type before calling the same SyncChain "
+          "(it is driven in the C01 check). Beacon contents are not verified here. Gated bolt scenarios use a pre-sized file. Go's random select choice is marked nondet and predictions are not compared there.",
+  "technique": "TLA+ spec + TLC exhaustive model checking + gated replay of all bounded behaviours on real code + TLC trace validation",
+ },
+ "C14": {
+  "text": "TLC explores DaemonEndpoints.tla, the lock program (acquire/release order incl. nested calls, defer-vs-explicit unlock, panic points) of every peer-facing/public handler per request path class "
+          "and node state, sequentially (sequences <= 3; Responds, NoLockLeft) and with one request interleaved with one internal step of the daemon at lock operations (NoDeadlock). Every (state x endpoint x "
+          "shape) edge is replayed on real daemons in four node states (fresh, proposal, running, stopped): directly under a deadline with goroutine-dump diagnosis, then through the real loopback gRPC / REST "
+          "listeners; after each call probe calls, TryLock observations, a beacon-loop liveness check and a process-alive check. Thorough adds seeded random protobuf-valid variants per class; gated "
+          "concurrent scenarios run against a DKG result being stored. TLC trace validation evaluates Responds / StillServes / NoLockLeft / LoopAlive / ProcessAlive / NoDeadlock.",
+  "design_ref": "DESIGN.md 4 C14",
+  "note": "Requests are wire-reachable (every message passes Marshal/Unmarshal). A handler panic counts as contained when the listener's caller gets an error and the process keeps serving. The DKG execution "
+          "phase (echoBroadcast) is modelled but not replayed. Blocked = no return in 5 s (4x extra when the goroutine is not waiting on a lock).",
+  "technique": "TLA+ lock model + TLC exhaustive and interleaving model checking + replay on real daemons (direct and loopback gRPC/HTTP, gated) + TLC trace validation",
+ },
+ "C18": {
+  "text": "Exhaustive TLC on StoreBackend.tla: complete state graphs of the transcribed bolt-untrimmed, bolt-trimmed (unchained and chained context) and memdb-ring back-ends against a reference sorted map "
+          "round->beacon (rounds 0..4, 2-3 value identities, ring capacity 3 and 2, cursor sub-steps, Put/Del while a cursor is open). TLC-generated behaviours (one path per class of monitor failure, a sampled "
+          "state cover of the complete graph, seeded simulation walks) plus seeded long random sequences (gaps, deletions, re-puts, dense appends, rounds around 2^8/2^16/2^24/2^31, cursors whose callback "
+          "interleaves First/Next/Seek/Last with Put/Del/Get) are executed on real stores (boltdb.NewBoltStore with and without the previous-required context, memdb.NewStore). Every call and its result is "
+          "validated by TLC with Trace_StoreBackend.tla: RefinesSortedMap, LabelMatchesData, AscendingIteration, SeekStoredReturnsIt, PrevIsPredecessorSig, RingForgetsOnlyOldest.",
+  "design_ref": "DESIGN.md 4 C18",
+  "note": "Trusted: TLC; the decoding of returned bytes to (kind, round, identity). Postgres back-end out of scope (no PostgreSQL in the sandbox). One cursor at a time. Rounds below 2^31 (TLC integers). "
+          "Ring capacities below 10 are built with a struct literal equal to NewStore minus its size guard.",
+  "technique": "TLA+ spec + TLC exhaustive model checking + replay of TLC behaviours on real stores + TLC trace validation",
+ },
+ "C19": {
+  "text": "Exhaustive TLC exploration of DaemonRouting.tla, a transcription of beaconProcesses / chainHashes / the HTTP handler table and of readBeaconID, getBeaconProcessByID, getBeaconHandler, "
+          "AddBeaconHandler, Shutdown: all load / dkg-done / stop histories over default + 2 chains (+3 in thorough), and in every state the whole id{absent, default, each, unknown} x hash{absent, each, "
+          "unknown, malformed} x endpoint product. A transition tour of the complete labelled state graph is replayed on a real DrandDaemon hosting fabricated 1-of-1 chains (real LoadBeacon / Shutdown / "
+          "completed-DKG paths); the request product is fired in every visited state on 11 gRPC methods and 4 HTTP paths. TLC trace validation evaluates RoutedRight (the answering chain, identified by whose "
+          "key verifies the answer, is the one named, still runs, is default only for unnamed requests; a mismatching pair is refused) and KeepsWorking.",
+  "design_ref": "DESIGN.md 4 C19",
+  "note": "Trusted: TLC, BLS verification and the chain-info hash, the projection of the daemon's maps. An absent id is read as default. A process without group has no hash yet, so an unknown hash cannot mismatch "
+          "it (the code's pre-DKG acceptance, stated as an assumption). StartFollowChain/StartCheckChain/BackupDatabase are not in the product.",
+  "technique": "TLA+ spec + TLC exhaustive model checking + transition-tour replay on the real daemon + TLC trace validation",
+ },
  "C12": {
   "text": "Exhaustive TLC exploration of PartialCache.tla (complete state graph on small constants) for the per-signer bound and no-cross-eviction, "
           "TLC simulation walks at the real constant replayed on the real partialCache, and TLC trace validation of every recorded call with the "
-          "monitors evaluated on the observed state.",
+          "monitors evaluated on the observed state. Callback half (SyncServe.tla): Mon_PutNeverWaitsOnConsumer and Mon_OthersServed checked on the design (Q=2, stall faults, blocked AddCallback, bolt "
+          "re-map) and on real code at CallbackWorkerQueue=100 through TLC walks and free-running stalled-consumer and scan-stall runs; 'blocked' is established from goroutine dumps.",
   "design_ref": "DESIGN.md 4 C12",
   "note": "Trusted: TLC, the projection of the Go maps to the abstract state (harness code in /verif/harness).",
   "technique": "TLA+ spec + TLC exhaustive model checking + trace validation of real-code executions",
